@@ -226,3 +226,25 @@ register(Contract(
                                            f"len({RL}) == old(len({RL}))", f"forall(lambda k: {RL}[k] is old({RL}[k]), 0, {N})"]),
            3: Loop(invariant=[f"len(g_steps) == 2 * {N}"])},
 ))
+
+# A fix request is queued exactly once, behind the requests already queued for that token, and nothing else in the map changes
+# (no request is dropped or overwritten; with no map -- scan mode -- nothing is queued).
+PSCK = "pymarkdown/plugin_manager/plugin_scan_context.py::PluginScanContext."
+FM = "self.__fix_token_map"
+_R["$fields"].types.update({"PluginScanContext._PluginScanContext__fix_token_map": "Optional[Dict[MarkdownToken, List[FixTokenRecord]]]"})
+register(Contract(
+    key=PSCK + "register_fix_token_request", properties=P,
+    ensures=[
+        f"implies(old({FM}) is None, {FM} is None)",
+        f"implies(old({FM}) is not None, {FM} is old({FM}) and token in {FM})",
+        f"implies(old({FM}) is not None and old(token in {FM}), {FM}[token] is old({FM}[token]) and len({FM}[token]) == old(len({FM}[token])) + 1 and "
+        f"forall(lambda k: {FM}[token][k] is old({FM}[token][k]), 0, old(len({FM}[token]))))",
+        f"implies(old({FM}) is not None and not old(token in {FM}), is_fresh({FM}[token]) and len({FM}[token]) == 1)",
+        f"implies(old({FM}) is not None, is_fresh({FM}[token][len({FM}[token]) - 1]) and {FM}[token][len({FM}[token]) - 1].token_to_fix is token and "
+        f"{FM}[token][len({FM}[token]) - 1].plugin_id is plugin_id and {FM}[token][len({FM}[token]) - 1].field_name is field_name and "
+        f"{FM}[token][len({FM}[token]) - 1].field_value is field_value)",
+        f"implies(old({FM}) is not None, forall_val(lambda x: implies(x is not token, (x in {FM}) == old(x in {FM}) and implies(x in {FM}, {FM}[x] is old({FM}[x])))))",
+    ],
+    raises=[],
+    modifies=[f"{FM}.$dict", "$llen", "$litems"],
+))
